@@ -256,6 +256,9 @@ func init() {
 			emit(scenStream([]streamSpec{{N: 2, Consumer: "fast"}, {N: 40, Consumer: "fast"}, {N: 40, Consumer: "slow"}, {N: 40, Consumer: "fast"}}, 1, "normal", 0, 2, false))
 			emit(scenStream([]streamSpec{{N: 0, Consumer: "fast"}, {N: 25, Consumer: "slow"}, {N: 25, Consumer: "never"}}, 0, "normal", 0, 0, false))
 			emit(scenStream([]streamSpec{{N: 20, Consumer: "slow"}, {N: 1, Consumer: "fast"}, {N: 25, Consumer: "slow"}, {N: 2, Consumer: "fast"}}, 1, "normal", 0, 0, false))
+			// a subscriber that never reads while its handler sends far more than any internal buffer holds: ordinary calls
+			// and other subscriptions on the connection must not be held up
+			emit(scenStream([]streamSpec{{N: 9000, Consumer: "never"}, {N: 6, Consumer: "fast"}}, 2, "normal", 0, 0, false))
 			// non-scalar elements (optional slice / map / pointer fields that differ from one element to the next)
 			emit(scenStream([]streamSpec{{N: 12, Consumer: "fast", Struct: true}}, 0, "normal", 0, 0, false))
 			emit(scenStream([]streamSpec{{N: 30, Consumer: "slow", Struct: true}, {N: 30, Consumer: "fast"}, {N: 9, Consumer: "fast", Struct: true}}, 1, "normal", 0, 4, false))
